@@ -502,41 +502,81 @@ package p9p
 //@ macro CALLED(f) = (gk(scalls, f) == old(gk(scalls, f)) + 1 && (forall k int :: {gk(scalls, k)} k != f ==> gk(scalls, k) == old(gk(scalls, k))))
 //@ macro NOCALL = (forall k int :: {gk(scalls, k)} gk(scalls, k) == old(gk(scalls, k)))
 
+
+// Session as environment of the server-side handler (C09): each call's results are an arbitrary but fixed function of the
+// arguments it was given and of the call's position in the history (sepoch), so passing a wrong or permuted argument is visible.
+//@ ghost sepoch int
+//@ macro EP = gk(sepoch, 0)
+//@ macro TICK = (EP == old(EP) + 1)
+//@ pure sAuthQ(afid Fid, uname string, aname string, e int) Qid
+//@ pure sAuthE(afid Fid, uname string, aname string, e int) error
+//@ pure sAttachQ(fid Fid, afid Fid, uname string, aname string, e int) Qid
+//@ pure sAttachE(fid Fid, afid Fid, uname string, aname string, e int) error
+//@ pure sClunkE(fid Fid, e int) error
+//@ pure sRemoveE(fid Fid, e int) error
+//@ pure sWalkQ(fid Fid, newfid Fid, names []string, e int) []Qid
+//@ pure sWalkE(fid Fid, newfid Fid, names []string, e int) error
+//@ pure sOpenQ(fid Fid, mode Flag, e int) Qid
+//@ pure sOpenU(fid Fid, mode Flag, e int) uint32
+//@ pure sOpenE(fid Fid, mode Flag, e int) error
+//@ pure sCreateQ(fid Fid, name string, perm uint32, mode Flag, e int) Qid
+//@ pure sCreateU(fid Fid, name string, perm uint32, mode Flag, e int) uint32
+//@ pure sCreateE(fid Fid, name string, perm uint32, mode Flag, e int) error
+//@ pure sStatD(fid Fid, e int) Dir
+//@ pure sStatE(fid Fid, e int) error
+//@ pure sWStatE(fid Fid, d Dir, e int) error
+//@ pure sReadN(fid Fid, n int, off int64, e int) int
+//@ pure sReadE(fid Fid, n int, off int64, e int) error
+//@ pure sWriteN(fid Fid, p []byte, off int64, e int) int
+//@ pure sWriteE(fid Fid, p []byte, off int64, e int) error
+
 //@ iface Session.Attach
-//@ modifies alloc, sbound, scalls
+//@ modifies alloc, sbound, scalls, sepoch
+//@ ensures TICK && result0 == sAttachQ(fid, afid, uname, aname, old(EP)) && err == sAttachE(fid, afid, uname, aname, old(EP))
 //@ ensures CALLED(fid) && SB_ONLY(fid) && (err != nil ==> SB_SAME) && (err == nil ==> gk(sbound, fid))
 //@ iface Session.Auth
-//@ modifies alloc, scalls
+//@ modifies alloc, scalls, sepoch
+//@ ensures TICK && result0 == sAuthQ(afid, uname, aname, old(EP)) && err == sAuthE(afid, uname, aname, old(EP))
 //@ ensures CALLED(afid)
 //@ iface Session.Walk
-//@ modifies alloc, sbound, scalls
+//@ modifies alloc, sbound, scalls, sepoch
+//@ ensures TICK && result0 == sWalkQ(fid, newfid, names, old(EP)) && err == sWalkE(fid, newfid, names, old(EP))
 //@ ensures CALLED(fid)
 //@ ensures bind: err == nil && len(result0) == len(names) && newfid != fid ==> gk(sbound, newfid) && SB_ONLY(newfid)
 //@ ensures nobind: !(err == nil && len(result0) == len(names) && newfid != fid) ==> SB_SAME
 //@ ensures err == nil ==> len(result0) <= len(names)
 //@ iface Session.Clunk
-//@ modifies alloc, sbound, scalls
+//@ modifies alloc, sbound, scalls, sepoch
+//@ ensures TICK && err == sClunkE(fid, old(EP))
 //@ ensures CALLED(fid) && !gk(sbound, fid) && SB_ONLY(fid)
 //@ iface Session.Remove
-//@ modifies alloc, sbound, scalls
+//@ modifies alloc, sbound, scalls, sepoch
+//@ ensures TICK && err == sRemoveE(fid, old(EP))
 //@ ensures CALLED(fid) && !gk(sbound, fid) && SB_ONLY(fid)
 //@ iface Session.Open
-//@ modifies alloc, scalls
+//@ modifies alloc, scalls, sepoch
+//@ ensures TICK && result0 == sOpenQ(fid, mode, old(EP)) && result1 == sOpenU(fid, mode, old(EP)) && err == sOpenE(fid, mode, old(EP))
 //@ ensures CALLED(fid)
 //@ iface Session.Create
-//@ modifies alloc, scalls
+//@ modifies alloc, scalls, sepoch
+//@ ensures TICK && result0 == sCreateQ(parent, name, perm, mode, old(EP)) && result1 == sCreateU(parent, name, perm, mode, old(EP)) && err == sCreateE(parent, name, perm, mode, old(EP))
 //@ ensures CALLED(parent)
 //@ iface Session.Stat
-//@ modifies alloc, scalls
+//@ modifies alloc, scalls, sepoch
+//@ ensures TICK && result0 == sStatD(fid, old(EP)) && err == sStatE(fid, old(EP))
 //@ ensures CALLED(fid)
 //@ iface Session.WStat
-//@ modifies alloc, scalls
+//@ modifies alloc, scalls, sepoch
+//@ ensures TICK && err == sWStatE(fid, dir, old(EP))
 //@ ensures CALLED(fid)
 //@ iface Session.Read
-//@ modifies alloc, scalls, E:uint8
+//@ modifies alloc, scalls, sepoch, E:uint8
+//@ ensures TICK && n == sReadN(fid, len(p), offset, old(EP)) && err == sReadE(fid, len(p), offset, old(EP))
+//@ ensures well_behaved: 0 <= n && n <= len(p)
 //@ ensures CALLED(fid) && onlyWindow("E:uint8", p)
 //@ iface Session.Write
-//@ modifies alloc, scalls
+//@ modifies alloc, scalls, sepoch
+//@ ensures TICK && n == sWriteN(fid, p, offset, old(EP)) && err == sWriteE(fid, p, offset, old(EP))
 //@ ensures CALLED(fid)
 //@ iface Session.Version
 //@ modifies nothing
@@ -616,3 +656,128 @@ package p9p
 //@ property C20
 //@ modifies nothing
 //@ ensures result == ent.qid
+
+// ---------------------------------------------------------------- csession.go / ssesssion.go (C09)
+//
+// Client side: the roundTripper below the client is the environment. sentmsg/sendcount record what was handed to it,
+// its answer is arbitrary (replymsg, senderr).
+//@ ghost sentmsg Message
+//@ ghost replymsg Message
+//@ ghost senderr error
+//@ ghost sendcount int
+
+//@ iface roundTripper.send
+//@ modifies alloc, sentmsg, replymsg, senderr, sendcount
+//@ ensures sentmsg(self) == msg && sendcount(self) == old(sendcount(self)) + 1
+//@ ensures result0 == replymsg(self) && err == senderr(self) && (err != nil ==> result0 == nil)
+
+//@ macro T = c.transport
+//@ macro ONE_SEND = (sendcount(T) == old(sendcount(T)) + 1)
+//@ macro CLIENT_OK = (c != nil && c.transport != nil)
+//@ macro FAILS = (senderr(T) != nil ==> err == senderr(T))
+
+//@ func (*client).Auth
+//@ property C09 C12
+//@ requires CLIENT_OK
+//@ ensures request: ONE_SEND && typeis(sentmsg(T), MessageTauth) && sentmsg(T).(MessageTauth).Afid == afid && sentmsg(T).(MessageTauth).Uname == uname && sentmsg(T).(MessageTauth).Aname == aname
+//@ ensures reply: FAILS && (senderr(T) == nil && typeis(replymsg(T), MessageRauth) ==> err == nil && result0 == replymsg(T).(MessageRauth).Qid)
+//@ ensures wrong_type: senderr(T) == nil && !typeis(replymsg(T), MessageRauth) ==> err == ErrUnexpectedMsg
+
+//@ func (*client).Attach
+//@ property C09 C12
+//@ requires CLIENT_OK
+//@ ensures request: ONE_SEND && typeis(sentmsg(T), MessageTattach) && sentmsg(T).(MessageTattach).Fid == fid && sentmsg(T).(MessageTattach).Afid == afid && sentmsg(T).(MessageTattach).Uname == uname && sentmsg(T).(MessageTattach).Aname == aname
+//@ ensures reply: FAILS && (senderr(T) == nil && typeis(replymsg(T), MessageRattach) ==> err == nil && result0 == replymsg(T).(MessageRattach).Qid)
+//@ ensures wrong_type: senderr(T) == nil && !typeis(replymsg(T), MessageRattach) ==> err == ErrUnexpectedMsg
+
+//@ func (*client).Clunk
+//@ property C09 C12
+//@ requires CLIENT_OK
+//@ ensures request: ONE_SEND && typeis(sentmsg(T), MessageTclunk) && sentmsg(T).(MessageTclunk).Fid == fid
+//@ ensures reply: FAILS && (senderr(T) == nil && typeis(replymsg(T), MessageRclunk) ==> err == nil)
+//@ ensures wrong_type: senderr(T) == nil && !typeis(replymsg(T), MessageRclunk) ==> err == ErrUnexpectedMsg
+
+//@ func (*client).Remove
+//@ property C09 C12
+//@ requires CLIENT_OK
+//@ ensures request: ONE_SEND && typeis(sentmsg(T), MessageTremove) && sentmsg(T).(MessageTremove).Fid == fid
+//@ ensures reply: FAILS && (senderr(T) == nil && typeis(replymsg(T), MessageRremove) ==> err == nil)
+//@ ensures wrong_type: senderr(T) == nil && !typeis(replymsg(T), MessageRremove) ==> err == ErrUnexpectedMsg
+
+//@ func (*client).Walk
+//@ property C09 C12
+//@ requires CLIENT_OK
+//@ ensures limit: len(names) > 16 ==> err == ErrWalkLimit && sendcount(T) == old(sendcount(T))
+//@ ensures request: len(names) <= 16 ==> ONE_SEND && typeis(sentmsg(T), MessageTwalk) && sentmsg(T).(MessageTwalk).Fid == fid && sentmsg(T).(MessageTwalk).Newfid == newfid && sentmsg(T).(MessageTwalk).Wnames == names
+//@ ensures reply: len(names) <= 16 ==> FAILS && (senderr(T) == nil && typeis(replymsg(T), MessageRwalk) ==> err == nil && result0 == replymsg(T).(MessageRwalk).Qids)
+//@ ensures wrong_type: len(names) <= 16 && senderr(T) == nil && !typeis(replymsg(T), MessageRwalk) ==> err == ErrUnexpectedMsg
+
+//@ func (*client).Open
+//@ property C09 C12
+//@ requires CLIENT_OK
+//@ ensures request: ONE_SEND && typeis(sentmsg(T), MessageTopen) && sentmsg(T).(MessageTopen).Fid == fid && sentmsg(T).(MessageTopen).Mode == mode
+//@ ensures reply: FAILS && (senderr(T) == nil && typeis(replymsg(T), MessageRopen) ==> err == nil && result0 == replymsg(T).(MessageRopen).Qid && result1 == replymsg(T).(MessageRopen).IOUnit)
+//@ ensures wrong_type: senderr(T) == nil && !typeis(replymsg(T), MessageRopen) ==> err == ErrUnexpectedMsg
+
+//@ func (*client).Create
+//@ property C09 C12
+//@ requires CLIENT_OK
+//@ ensures request: ONE_SEND && typeis(sentmsg(T), MessageTcreate) && sentmsg(T).(MessageTcreate).Fid == parent && sentmsg(T).(MessageTcreate).Name == name && sentmsg(T).(MessageTcreate).Perm == perm && sentmsg(T).(MessageTcreate).Mode == mode
+//@ ensures reply: FAILS && (senderr(T) == nil && typeis(replymsg(T), MessageRcreate) ==> err == nil && result0 == replymsg(T).(MessageRcreate).Qid && result1 == replymsg(T).(MessageRcreate).IOUnit)
+//@ ensures wrong_type: senderr(T) == nil && !typeis(replymsg(T), MessageRcreate) ==> err == ErrUnexpectedMsg
+
+//@ func (*client).Stat
+//@ property C09 C12
+//@ requires CLIENT_OK
+//@ ensures request: ONE_SEND && typeis(sentmsg(T), MessageTstat) && sentmsg(T).(MessageTstat).Fid == fid
+//@ ensures reply: FAILS && (senderr(T) == nil && typeis(replymsg(T), MessageRstat) ==> err == nil && result0 == replymsg(T).(MessageRstat).Stat)
+//@ ensures wrong_type: senderr(T) == nil && !typeis(replymsg(T), MessageRstat) ==> err == ErrUnexpectedMsg
+
+//@ func (*client).WStat
+//@ property C09 C12
+//@ requires CLIENT_OK
+//@ ensures request: ONE_SEND && typeis(sentmsg(T), MessageTwstat) && sentmsg(T).(MessageTwstat).Fid == fid && sentmsg(T).(MessageTwstat).Stat == dir
+//@ ensures reply: FAILS && (senderr(T) == nil && typeis(replymsg(T), MessageRwstat) ==> err == nil)
+//@ ensures wrong_type: senderr(T) == nil && !typeis(replymsg(T), MessageRwstat) ==> err == ErrUnexpectedMsg
+
+//@ func (*client).Read
+//@ property C09 C12
+//@ requires CLIENT_OK && len(p) < 4294967296
+//@ let RD = replymsg(T).(MessageRread).Data
+//@ ensures request: ONE_SEND && typeis(sentmsg(T), MessageTread) && sentmsg(T).(MessageTread).Fid == fid && sentmsg(T).(MessageTread).Offset == uint64(offset) && sentmsg(T).(MessageTread).Count == len(p)
+//@ ensures reply: FAILS && (senderr(T) == nil && typeis(replymsg(T), MessageRread) ==> n == min(len(p), len(RD)) && (len(RD) == 0 ==> err == io.EOF) && (len(RD) > 0 ==> err == nil))
+//@ ensures data: senderr(T) == nil && typeis(replymsg(T), MessageRread) && base(p) != base(RD) ==> forall(j, 0, n, p[j] == RD[j])
+//@ ensures wrong_type: senderr(T) == nil && !typeis(replymsg(T), MessageRread) ==> err == ErrUnexpectedMsg
+
+//@ func (*client).Write
+//@ property C09 C12
+//@ requires CLIENT_OK
+//@ ensures request: ONE_SEND && typeis(sentmsg(T), MessageTwrite) && sentmsg(T).(MessageTwrite).Fid == fid && sentmsg(T).(MessageTwrite).Offset == uint64(offset) && sentmsg(T).(MessageTwrite).Data == p
+//@ ensures reply: FAILS && (senderr(T) == nil && typeis(replymsg(T), MessageRwrite) ==> n == replymsg(T).(MessageRwrite).Count && (n < len(p) ==> err == io.ErrShortWrite) && (n >= len(p) ==> err == nil))
+//@ ensures wrong_type: senderr(T) == nil && !typeis(replymsg(T), MessageRwrite) ==> err == ErrUnexpectedMsg
+
+//@ func (sessionHandler).Handle
+//@ property C09 C06
+//@ requires sess.s != nil && 0 <= sess.msize && sess.msize < 2147483648
+//@ let E = old(EP)
+//@ let TA = msg.(MessageTauth)
+//@ let TT = msg.(MessageTattach)
+//@ let TW = msg.(MessageTwalk)
+//@ let TO = msg.(MessageTopen)
+//@ let TC = msg.(MessageTcreate)
+//@ let TR = msg.(MessageTread)
+//@ let TWR = msg.(MessageTwrite)
+//@ let CNT = max(0, min(TR.Count, sess.msize - 11))
+//@ ensures error_has_no_message: err != nil ==> result0 == nil
+//@ ensures tauth: typeis(msg, MessageTauth) ==> TICK && err == sAuthE(TA.Afid, TA.Uname, TA.Aname, E) && (err == nil ==> typeis(result0, MessageRauth) && result0.(MessageRauth).Qid == sAuthQ(TA.Afid, TA.Uname, TA.Aname, E))
+//@ ensures tattach: typeis(msg, MessageTattach) ==> TICK && err == sAttachE(TT.Fid, TT.Afid, TT.Uname, TT.Aname, E) && (err == nil ==> typeis(result0, MessageRattach) && result0.(MessageRattach).Qid == sAttachQ(TT.Fid, TT.Afid, TT.Uname, TT.Aname, E))
+//@ ensures twalk: typeis(msg, MessageTwalk) ==> TICK && err == sWalkE(TW.Fid, TW.Newfid, TW.Wnames, E) && (err == nil ==> typeis(result0, MessageRwalk) && result0.(MessageRwalk).Qids == sWalkQ(TW.Fid, TW.Newfid, TW.Wnames, E))
+//@ ensures topen: typeis(msg, MessageTopen) ==> TICK && err == sOpenE(TO.Fid, TO.Mode, E) && (err == nil ==> typeis(result0, MessageRopen) && result0.(MessageRopen).Qid == sOpenQ(TO.Fid, TO.Mode, E) && result0.(MessageRopen).IOUnit == sOpenU(TO.Fid, TO.Mode, E))
+//@ ensures tcreate: typeis(msg, MessageTcreate) ==> TICK && err == sCreateE(TC.Fid, TC.Name, TC.Perm, TC.Mode, E) && (err == nil ==> typeis(result0, MessageRcreate) && result0.(MessageRcreate).Qid == sCreateQ(TC.Fid, TC.Name, TC.Perm, TC.Mode, E) && result0.(MessageRcreate).IOUnit == sCreateU(TC.Fid, TC.Name, TC.Perm, TC.Mode, E))
+//@ ensures tread: typeis(msg, MessageTread) ==> TICK && err == sReadE(TR.Fid, CNT, int64(TR.Offset), E) && (err == nil ==> typeis(result0, MessageRread) && len(result0.(MessageRread).Data) == sReadN(TR.Fid, CNT, int64(TR.Offset), E) && fresh(base(result0.(MessageRread).Data)))
+//@ ensures twrite: typeis(msg, MessageTwrite) ==> TICK && err == sWriteE(TWR.Fid, TWR.Data, int64(TWR.Offset), E) && (err == nil ==> typeis(result0, MessageRwrite) && result0.(MessageRwrite).Count == uint32(sWriteN(TWR.Fid, TWR.Data, int64(TWR.Offset), E)))
+//@ ensures tclunk: typeis(msg, MessageTclunk) ==> TICK && err == sClunkE(msg.(MessageTclunk).Fid, E) && (err == nil ==> typeis(result0, MessageRclunk))
+//@ ensures tremove: typeis(msg, MessageTremove) ==> TICK && err == sRemoveE(msg.(MessageTremove).Fid, E) && (err == nil ==> typeis(result0, MessageRremove))
+//@ ensures tstat: typeis(msg, MessageTstat) ==> TICK && err == sStatE(msg.(MessageTstat).Fid, E) && (err == nil ==> typeis(result0, MessageRstat) && result0.(MessageRstat).Stat == sStatD(msg.(MessageTstat).Fid, E))
+//@ ensures twstat: typeis(msg, MessageTwstat) ==> TICK && err == sWStatE(msg.(MessageTwstat).Fid, msg.(MessageTwstat).Stat, E) && (err == nil ==> typeis(result0, MessageRwstat))
+//@ ensures unknown: !typeis(msg, MessageTauth) && !typeis(msg, MessageTattach) && !typeis(msg, MessageTwalk) && !typeis(msg, MessageTopen) && !typeis(msg, MessageTcreate) && !typeis(msg, MessageTread) && !typeis(msg, MessageTwrite) && !typeis(msg, MessageTclunk) && !typeis(msg, MessageTremove) && !typeis(msg, MessageTstat) && !typeis(msg, MessageTwstat) ==> err == ErrUnknownMsg && EP == E
